@@ -374,26 +374,20 @@ func (r *Reconciler) selectNodes(logger logr.Logger, daemonset *datadoghqv1alpha
 		return nodeNameRestarts[nodeList.Items[i].Name] < nodeNameRestarts[nodeList.Items[j].Name]
 	})
 
-	// Filter Nodes Unschedulable
-	for _, node := range nodeList.Items {
-		found := false
-		var id int
-		for id = range currentNodes {
-			if node.Name == currentNodes[id] {
-				found = true
+	// Keep only the already selected Nodes that still exist, match the selector and are schedulable
+	var stillValidNodes []string
+	for _, nodeName := range currentNodes {
+		for id := range nodeList.Items {
+			if nodeList.Items[id].Name == nodeName {
+				if scheduler.CheckNodeFitness(logger.WithValues("filter", "Nodes Unschedulabled"), newPod, &nodeList.Items[id]) {
+					stillValidNodes = append(stillValidNodes, nodeName)
+				}
 
 				break
 			}
 		}
-
-		if !found {
-			continue
-		}
-
-		if !scheduler.CheckNodeFitness(logger.WithValues("filter", "Nodes Unschedulabled"), newPod, &node) {
-			currentNodes = append(currentNodes[:id], currentNodes[id+1:]...)
-		}
 	}
+	currentNodes = stillValidNodes
 
 	// Look for other nodes to use as canary
 	if len(currentNodes) < nbCanaryPod {
